@@ -1671,7 +1671,8 @@ def sl1(F, R):
                 continue
             n += 1
             x = a
-            while x[0] == "call" and x[1] and x[1].split("::")[-1] in ("into_iter",) and x[2]:
+            # (adaptors that hand every element on, one for one, do not disturb the numbering)
+            while x[0] == "call" and x[1] and x[1].split("::")[-1] in ("into_iter", "map", "inspect", "copied", "cloned", "by_ref", "peekable") and x[2]:
                 x = strip_refs(x[2][0])
             direct = x[0] == "call" and x[1] and x[1].endswith("chunks_exact")
             R.require(direct, fn, "slots-all-numbered", "enumerate() runs over %s, not directly over chunks_exact(): the index no longer numbers every 32-byte slot of the block, so index * 32 is not the slot's offset" % tstr(a)[:90], fn.loc(b),
